@@ -1,4 +1,5 @@
 import T4V.Proofs.Expand
+import T4V.Proofs.LatticeArg
 import T4V.Text.DataCard
 import T4V.Spec.Comp
 import T4V.Model.Macro
@@ -165,5 +166,22 @@ theorem lat_value_rejected (pre rest : List String) (acc : List Item) (v : Strin
       | error e => rfl
       | ok st' => exact ih b st'
   simp [parseKeywords, groupTokens, hrun, hpre, kwRun, kwStep, hv, Except.map]
+
+/-! ### a malformed `--lattice` argument (model `Text/LatticeArg` = `main.parse_lattice` / `parse_ranges`) -/
+
+/-- **an option is accepted only with a cell number followed by one, two or three ranges** (comma-separated fields: the
+number of fields is the number of ranges plus one) -/
+theorem lattice_option_needs_one_to_three_ranges (opt : List Char) (cell : Int) (rs : List (Int × Int))
+    (h : LA.parseOption opt = .ok (cell, rs)) :
+    1 ≤ rs.length ∧ rs.length ≤ 3 ∧ (LA.splitOn ',' opt).length = rs.length + 1 :=
+  LAP.parseOption_range_count opt cell rs h
+
+/-- **a range is accepted only with exactly two colon-separated bounds** -/
+theorem lattice_range_needs_two_bounds (r : List Char) (x : Int × Int) (h : LA.parseRange r = .ok x) :
+    (LA.splitOn ':' r).length = 2 :=
+  LAP.parseRange_two_bounds r x h
+
+example : LA.parseLattice ["malformed".toList] = .error .noRanges := by rfl
+example : LA.parseLattice ["100,0:4,0:4,0:4,0:4".toList] = .error .tooMany := by rfl
 
 end T4V.C17
